@@ -1,12 +1,19 @@
-"""Complete (not deviation-bounded) exploration of the choice tree of ONE call of a randomised
-helper: every answer at every choice point, by DFS over choice prefixes."""
+"""Complete exploration of the choice tree of ONE call of a randomised helper: every answer at
+every choice point, by DFS over choice prefixes.  Optionally, choice points asked from given
+functions (nested instantiation detail) are explored with a deviation bound instead."""
+import sys
+
 from mc.choice import ChoiceSource, Horizon
+
+LIMITED_DEFAULT = ('_compute_type_variable_assignments', '_get_type_arg_variance')
 
 
 class FullChoice(ChoiceSource):
-    def __init__(self, prefix, horizon=2000):
+    def __init__(self, prefix, horizon=2000, want_sites=False):
         super().__init__('first', None, horizon=horizon)
         self.prefix = prefix
+        self.want_sites = want_sites
+        self.fn = []
 
     def _pick(self, n, base_idx=None, u=None):
         pos = len(self.ns)
@@ -15,6 +22,11 @@ class FullChoice(ChoiceSource):
         c = self.prefix[pos] if pos < len(self.prefix) else 0
         if c >= n:
             raise RuntimeError('inner schedule does not fit menu')
+        if self.want_sites:
+            f = sys._getframe(2)
+            while f is not None and f.f_code.co_filename.endswith('src/utils.py'):
+                f = f.f_back
+            self.fn.append(f.f_code.co_name if f is not None else '?')
         self.ns.append(n)
         self.base.append(0)
         self.ans.append(c)
@@ -22,10 +34,12 @@ class FullChoice(ChoiceSource):
         return c
 
 
-def explore_all(utils_mod, fn, cap=20000):
+def explore_all(utils_mod, fn, cap=20000, limited=None, limited_bound=1):
     """yield (trace, outcome) for every leaf; outcome = ('ok', value) | ('exc', exception).
+    limited: tuple of function names whose choice points get at most `limited_bound` non-default
+    answers per execution (None = every point fully expanded).
     Sets explore_all.capped when the cap stopped the walk."""
-    stack = [[]]
+    stack = [([], 0)]
     n = 0
     explore_all.capped = False
     R = utils_mod.random
@@ -35,8 +49,8 @@ def explore_all(utils_mod, fn, cap=20000):
             if n >= cap:
                 explore_all.capped = True
                 break
-            pre = stack.pop()
-            ch = FullChoice(pre)
+            pre, used = stack.pop()
+            ch = FullChoice(pre, want_sites=limited is not None)
             R.r = ch
             try:
                 out = ('ok', fn())
@@ -46,8 +60,11 @@ def explore_all(utils_mod, fn, cap=20000):
                 out = ('exc', e)
             n += 1
             for i in range(len(pre), len(ch.ns)):
+                lim = limited is not None and ch.fn[i] in limited
+                if lim and used >= limited_bound:
+                    continue
                 for alt in range(1, ch.ns[i]):
-                    stack.append(ch.ans[:i] + [alt])
+                    stack.append((ch.ans[:i] + [alt], used + (1 if lim else 0)))
             yield list(ch.ans), out
     finally:
         R.r = saved
